@@ -133,6 +133,28 @@ def run_conv(case, ctx):
             if abs(ev[m][j] - we) > tol * max(abs(we), spane):
                 fail('request %r AU (%s): error of %s is %r, expected %r' % (req, kind, case['names'][m], ev[m][j], we),
                      'c13:error_interpolation')
+    # the table is usually filled IN PLACE (as the convolution code does): a second call must see the edited table
+    if nap >= 2 and not below:
+        m_edit = len(reqs) % nm
+        with must_succeed('editing flux / error in place'):
+            cf.flux[m_edit, :] = cf.flux[m_edit, :] * 3.5
+            cf.error[m_edit, :] = cf.error[m_edit, :] * 0.25
+        q2 = np.array([r * UFAC[case['request_unit']] for r in reqs]) * U(case['request_unit'])
+        try:
+            r2 = cf.interpolate(q2)
+        except Exception as exc:  # noqa
+            if not same and aps[0] in reqs:
+                return labels, nontrivial
+            fail('second interpolate() raised %s: %s' % (type(exc).__name__, exc), 'c13:second_call')
+        f2, e2 = np.asarray(r2.flux.to(u.mJy).value), np.asarray(r2.error.to(u.mJy).value)
+        for j, req in enumerate(reqs):
+            wf = om.interp_aperture(aps, [v * 3.5 for v in case['flux'][m_edit]], req)
+            we = om.interp_aperture(aps, [v * 0.25 for v in case['err'][m_edit]], req)
+            if abs(f2[m_edit][j] - wf) > 1e-9 * max(abs(wf), 3.5 * max(case['flux'][m_edit])) or \
+                    abs(e2[m_edit][j] - we) > 1e-9 * max(abs(we), max(case['err'][m_edit])):
+                fail('after editing the table of %s in place, a second interpolate() at %r AU gives %r +- %r, the edited table '
+                     'gives %r +- %r' % (case['names'][m_edit], req, f2[m_edit][j], e2[m_edit][j], wf, we), 'c13:stale_after_edit')
+        labels.add('second_call_after_in_place_edit')
     return labels, nontrivial
 
 
